@@ -302,6 +302,33 @@ func vrtConfigFile(readErr, yamlErr, emptyList bool, typ string) string {
 	return p
 }
 
+// vrtConfigFileS: like vrtConfigFile, and the file also holds a suffixes map of up to two entries
+// (an entry with an empty key is absent).
+func vrtConfigFileS(readErr, yamlErr, emptyList bool, typ string, k1, v1, k2, v2 string) string {
+	p := vrtConfigFile(readErr, yamlErr, emptyList, typ)
+	if readErr || yamlErr {
+		return p
+	}
+	b, err := os.ReadFile(p)
+	if err != nil {
+		panic(err)
+	}
+	content := string(b)
+	if k1 != "" || k2 != "" {
+		content += "suffixes:\n"
+		if k1 != "" {
+			content += "  " + strconv.Quote(k1) + ": " + strconv.Quote(v1) + "\n"
+		}
+		if k2 != "" {
+			content += "  " + strconv.Quote(k2) + ": " + strconv.Quote(v2) + "\n"
+		}
+	}
+	if err := os.WriteFile(p, []byte(content), 0644); err != nil {
+		panic(err)
+	}
+	return p
+}
+
 // vrtPath: an import path (letters, digits, '.', '_', '/', '-'), no leading or trailing '.'.
 func vrtPath(s string) bool {
 	for i := 0; i < len(s); i++ {
